@@ -1,7 +1,8 @@
 SPECIFICATION SpecMC
 CONSTANTS
-  Starts = {"2x2","3x3","r3","n2"}
+  Starts = {"2x2","3x3","r3","n2","v4"}
   OpNames = {"InsertRow","AppendRow","DeleteRow","DeleteRows","InsertColumn","AppendColumn","DeleteColumn","DeleteColumns","SetCellText","ClearCellParagraphs","AddCellParagraph","AddNestedTable","MergeCellsHorizontal","MergeCellsVertical","MergeCellsRange","UnmergeCells","ClearTable","CopyTable","ReadAll"}
+  Creates = "core"
   Depth = 0
   Slack = 1
   PairMode = "core"
